@@ -148,7 +148,8 @@ def number_gates(chk, F):
         k2.gate_rule(chk, fn, "conformance-gate", "rink_core::Number::" + name, "exponent-dimensionless", actions, dimless_accept(A2),
                      "the operation runs only behind `exp.dimless()`", "%s accepts a right-hand side that carries a dimension" % name)
     for name, sym in (("and", "BitAnd"), ("or", "BitOr"), ("xor", "BitXor")):
-        fn = F.find(CORE, "types::number::Number::" + name)
+        # (normalised: the three operators may share a private helper that is handed the operation as a closure)
+        fn = F.find(CORE, "types::number::Number::" + name, inline=True, keep=("Number::dimless", "Option::<T>", "Result::<T, E>", "Iterator", "bool>::then"))
         actions = [bb for bb, t in fn.calls() if "callee" in t and ("::bit::%s" % sym) in t["callee"]["path"]]
         for base, which in ((A1, "left"), (A2, "right")):
             k2.gate_rule(chk, fn, "conformance-gate", "rink_core::Number::" + name, "dimensionless-" + which, actions, dimless_accept(base),
